@@ -113,13 +113,23 @@ def firstReal : List Tok → Option (Tok × List Tok)
   | [] => none
   | t :: rest => if t.kind = Kind.Comment then firstReal rest else some (t, rest)
 
-/-- `take_until(kinds)`: `(rest, body, end token)`.  As in the code, `count` is reduced by
-    one also when no terminator was found, which drops the last token of the slice. -/
+/-- `take_until(kinds)`: `(rest, body, end token)`; the stop token belongs to neither part.
+    When no stop token is found everything is taken. -/
+def takeUntil (ks : List Kind) : List Tok → List Tok × List Tok × Option Tok
+  | [] => ([], [], none)
+  | t :: rest =>
+    if ks.contains t.kind then (rest, [], some t)
+    else
+      let r := takeUntil ks rest
+      (r.1, t :: r.2.1, r.2.2)
+
+/-- `take_until` as it was at the pinned commit: `count` was reduced by one also when no stop
+    token was found, which dropped the last token of an unterminated slice (kept for the witness) -/
 def takeUntilGo (ks : List Kind) : List Tok → Nat → (List Tok × Nat × Option Tok)
   | [], n => ([], n, none)
   | t :: rest, n => if ks.contains t.kind then (rest, n + 1, some t) else takeUntilGo ks rest (n + 1)
 
-def takeUntil (ks : List Kind) (ts : List Tok) : List Tok × List Tok × Option Tok :=
+def takeUntilOld (ks : List Kind) (ts : List Tok) : List Tok × List Tok × Option Tok :=
   let (rest, count, e) := takeUntilGo ks ts 0
   (rest, ts.take (count - 1), e)
 
